@@ -189,8 +189,8 @@ Proof.
     set (o0 := if archive s2 && _ then [OArchive] else []).
   pose proof (put_jobs_todo c (jobs s2) (s2, o0) y) as P.
   destruct (fold_left (put_job c) (jobs s2) (s2, o0)) as [s3 o1]. cbn [fst] in P.
-  destruct (hand_out _ _ _ _ _) as [[[[cl' w'] b'] fl'] o2]. cbn [fst ns set_farm].
-  exact P.
+  destruct (hand_out _ _ _ _ _) as [[[[cl' w'] b'] fl'] o2].
+  destruct (archive s2 && _); cbn [fst ns set_farm set_flags]; exact P.
 Qed.
 
 Lemma njb_pending c s y :
@@ -254,7 +254,8 @@ Proof.
       destruct (rid (getn (ns s0) z)); cbn [fst ns set_farm set_ns]; rewrite setn_length; exact La. }
     specialize (G (jobs s2) (s2, o0) L1).
     destruct (fold_left (put_job c) (jobs s2) (s2, o0)) as [s3 o1]. cbn [fst] in G.
-    destruct (hand_out _ _ _ _ _) as [[[[cl' w'] b'] fl'] o2]. cbn [fst ns set_farm]. exact G.
+    destruct (hand_out _ _ _ _ _) as [[[[cl' w'] b'] fl'] o2].
+  destruct (archive s2 && _); cbn [fst ns set_farm set_flags]; exact G.
   - rewrite rep_ns. unfold res. destruct (mem x (que _)); [|exact Hl].
     set (s1 := set_busy s _).
     assert (L2 : length (ns (complete c x t s1)) = nnodes c)
